@@ -17,6 +17,29 @@ class TranslateError(Exception):
     pass
 
 
+ERRORS = []          # messages of the extractions that failed in the current generator
+
+
+class attempt:
+    """`with attempt("NAME"):` -- one datum (or a few coupled ones).  A failed extraction leaves the datum out of the
+    generated text and records why; tools/arbitrate.py then decides from the implementation's behaviour whether the
+    baseline value still stands."""
+
+    def __init__(self, what):
+        self.what = what
+
+    def __enter__(self):
+        return self
+
+    def __exit__(self, et, ev, tb):
+        if et is None:
+            return False
+        if issubclass(et, (TranslateError, AttributeError, ValueError, IndexError, KeyError, TypeError)):
+            ERRORS.append("%s: %s" % (self.what, ev if et is TranslateError else "%s %s" % (et.__name__, ev)))
+            return True
+        return False
+
+
 def src(rel):
     with open(os.path.join(REPO, rel), encoding="utf-8") as f:
         return f.read()
@@ -42,6 +65,102 @@ def const(text, name, where):
     if not m:
         raise TranslateError("anchor missing: const %s in %s" % (name, where))
     return m.group(1).strip()
+
+
+def _match_braces(text, j):
+    """text[j] == '{' -> index of the matching '}' (string and char literals and comments are skipped)"""
+    depth, k, n = 0, j, len(text)
+    while k < n:
+        ch = text[k]
+        if ch == '"':
+            k += 1
+            while k < n and text[k] != '"':
+                k += 2 if text[k] == "\\" else 1
+        elif ch == "'" and k + 2 < n and (text[k + 2] == "'" or (text[k + 1] == "\\" and "'" in text[k + 2:k + 12])):
+            k = text.index("'", k + 2)
+        elif text.startswith("//", k):
+            e = text.find("\n", k)
+            k = n if e < 0 else e
+        elif ch == "{":
+            depth += 1
+        elif ch == "}":
+            depth -= 1
+            if depth == 0:
+                return k
+        k += 1
+    return -1
+
+
+def fn_spans(text, name):
+    """[(start of 'fn', index of '{', index of matching '}')] for every definition of fn `name` that has a body"""
+    out = []
+    for m in re.finditer(r"\bfn\s+%s\b\s*(?:<[^{;(]*>)?\s*\(" % re.escape(name), text):
+        k, depth, n = m.end(), 1, len(text)
+        while k < n and depth:                       # the parameter list
+            depth += {"(": 1, ")": -1}.get(text[k], 0)
+            k += 1
+        sq = 0
+        while k < n and not (sq == 0 and text[k] in "{;"):
+            sq += {"[": 1, "]": -1}.get(text[k], 0)
+            k += 1
+        if k >= n or text[k] == ";":
+            continue                                  # a declaration without body (trait method)
+        e = _match_braces(text, k)
+        if e > 0:
+            out.append((m.start(), k, e))
+    return out
+
+
+def impl_span(text, scope):
+    """span of the first `impl ... scope ... { }` block"""
+    for m in re.finditer(r"\bimpl\b[^{;]*\b%s\b[^{;]*\{" % re.escape(scope), text):
+        j = m.end() - 1
+        k = _match_braces(text, j)
+        if k > 0:
+            return j, k
+    return None
+
+
+def fn_body(text, sig, where, scope=None):
+    """body (braces included) of a function.  `sig` is either the bare name or the beginning of the signature as it
+    was when the translator was written; only the name is required to survive: an exact match of `sig` is preferred,
+    then a definition inside `impl <scope>`, then the only / first definition of that name."""
+    m = re.search(r"fn\s+(\w+)", sig)
+    name = m.group(1) if m else sig
+    spans = fn_spans(text, name)
+    if not spans:
+        raise TranslateError("anchor missing: fn %s in %s" % (name, where))
+    i = text.find(sig) if m else -1
+    pick = None
+    if i >= 0:
+        pick = next((sp for sp in spans if sp[0] <= i + sig.index("fn") <= sp[1]), None)
+    if pick is None and scope:
+        isp = impl_span(text, scope)
+        if isp:
+            pick = next((sp for sp in spans if isp[0] < sp[0] < isp[1]), None)
+    if pick is None:
+        pick = spans[0]
+    return text[pick[1]:pick[2] + 1]
+
+
+def closure(text, body, depth=3):
+    """`body` followed by the bodies of the functions of the same file that it calls (transitively, `depth` levels):
+    a property of a function survives the extraction of a private helper"""
+    seen, out, frontier = set(), [body], [body]
+    defined = set(re.findall(r"\bfn\s+(\w+)", text))
+    for _ in range(depth):
+        nxt = []
+        for b in frontier:
+            for callee in set(re.findall(r"\b(\w+)\s*(?:::<[^>]*>)?\(", b)):
+                if callee in defined and callee not in seen:
+                    seen.add(callee)
+                    for sp in fn_spans(text, callee):
+                        t = text[sp[1]:sp[2] + 1]
+                        if t not in out:
+                            out.append(t)
+                            nxt.append(t)
+        frontier = nxt
+    return "\n".join(out)
 
 
 def coq_str(s):
@@ -91,73 +210,109 @@ def write_if_changed(name, body):
 
 
 # --------------------------------------------------------------------------- #
+def strip_comments(body):
+    return re.sub(r"//[^\n]*", "", body)
+
+
+def flat(body):
+    return re.sub(r"\s+", " ", strip_comments(body))
+
+
+DISCARDS = [r"let _ =", r"\.ok\(\)", r"\.unwrap_or", r"if let Err", r"\.is_err\(\)", r"\.is_ok\(\)", r"drop\("]
+
+
+def boolean(v):
+    return "true" if v else "false"
+
+
 def gen_consts():
     out = ["From Coq Require Import NArith ZArith List.", "Import ListNotations.", "Open Scope N_scope.", ""]
     ts = strip_tests(src("src/internal/timestamp.rs"))
-    out.append("Definition UNIX_EPOCH_TIMESTAMP : N := %d." % rust_int(const(ts, "UNIX_EPOCH_TIMESTAMP", "timestamp.rs")))
+    with attempt("UNIX_EPOCH_TIMESTAMP"):
+        out.append("Definition UNIX_EPOCH_TIMESTAMP : N := %d." % rust_int(const(ts, "UNIX_EPOCH_TIMESTAMP", "timestamp.rs")))
     # the literal factors used by the two conversion helpers
-    m = re.search(r"fn duration_to_timestamp_delta.*?\{(.*?)\n\}", ts, re.S)
-    if not m:
-        raise TranslateError("anchor missing: duration_to_timestamp_delta")
-    body = m.group(1)
-    nums = [rust_int(x) for x in re.findall(r"\b\d[\d_]*\b", body)]
-    out.append("Definition TS_D2T_FACTORS : list N := [%s]." % "; ".join(map(str, nums)))
-    m = re.search(r"fn timestamp_delta_to_duration.*?\{(.*?)\n\}", ts, re.S)
-    if not m:
-        raise TranslateError("anchor missing: timestamp_delta_to_duration")
-    nums = [rust_int(x) for x in re.findall(r"\b\d[\d_]*\b", re.sub(r"u(32|64)", "", m.group(1)))]
-    out.append("Definition TS_T2D_FACTORS : list N := [%s]." % "; ".join(map(str, nums)))
+    with attempt("TS_D2T_FACTORS"):
+        body = fn_body(ts, "duration_to_timestamp_delta", "timestamp.rs")
+        nums = [rust_int(x) for x in re.findall(r"\b\d[\d_]*\b", body)]
+        if not nums:
+            raise TranslateError("no literal factors in duration_to_timestamp_delta")
+        out.append("Definition TS_D2T_FACTORS : list N := [%s]." % "; ".join(map(str, nums)))
+    with attempt("TS_T2D_FACTORS"):
+        body = fn_body(ts, "timestamp_delta_to_duration", "timestamp.rs")
+        nums = [rust_int(x) for x in re.findall(r"\b\d[\d_]*\b", re.sub(r"u(32|64)", "", body))]
+        if not nums:
+            raise TranslateError("no literal factors in timestamp_delta_to_duration")
+        out.append("Definition TS_T2D_FACTORS : list N := [%s]." % "; ".join(map(str, nums)))
     sp = strip_tests(src("src/internal/stringpool.rs"))
-    out.append("Definition MAX_STRING_REF : N := %d." % rust_int(const(sp, "MAX_STRING_REF", "stringpool.rs")))
-    out.append("Definition LONG_STRING_REFS_BIT : N := %d." % rust_int(const(sp, "LONG_STRING_REFS_BIT", "stringpool.rs")))
+    for nm in ("MAX_STRING_REF", "LONG_STRING_REFS_BIT"):
+        with attempt(nm):
+            out.append("Definition %s : N := %d." % (nm, rust_int(const(sp, nm, "stringpool.rs"))))
     tb = strip_tests(src("src/internal/table.rs"))
-    m = re.search(r"if num_rows > (\d+) \{", tb)
-    if not m:
-        raise TranslateError("anchor missing: row limit in read_rows")
-    out.append("Definition MAX_ROWS_READ : N := %s." % m.group(1))
+    with attempt("MAX_ROWS_READ"):
+        m = re.search(r"if num_rows > (\d[\d_]*) \{", tb)
+        if not m:
+            raise TranslateError("anchor missing: row limit in read_rows")
+        out.append("Definition MAX_ROWS_READ : N := %d." % rust_int(m.group(1)))
     qy = strip_tests(src("src/internal/query.rs"))
-    m = re.search(r"rows_map\.len\(\) \+ (?:self\.)?new_rows\.len\(\) > (\d+)", qy)
-    out.append("Definition MAX_ROWS_INSERT : option N := %s.  (* row limit enforced by Insert::exec, if any *)" % ("Some %s" % m.group(1) if m else "None"))
+    with attempt("MAX_ROWS_INSERT"):
+        m = re.search(r"rows_map\.len\(\) \+ (?:self\.)?new_rows\.len\(\) > (\d[\d_]*)", qy)
+        if not m:
+            raise TranslateError("anchor missing: row limit of Insert::exec (rows_map.len() + new_rows.len() > N)")
+        out.append("Definition MAX_ROWS_INSERT : option N := Some %d.  (* row limit enforced by Insert::exec, if any *)" % rust_int(m.group(1)))
     ps = strip_tests(src("src/internal/propset.rs"))
-    out.append("Definition BYTE_ORDER_MARK : N := %d." % rust_int(const(ps, "BYTE_ORDER_MARK", "propset.rs")))
-    out.append("Definition PROPERTY_CODEPAGE : N := %d." % rust_int(const(ps, "PROPERTY_CODEPAGE", "propset.rs")))
+    for nm in ("BYTE_ORDER_MARK", "PROPERTY_CODEPAGE"):
+        with attempt(nm):
+            out.append("Definition %s : N := %d." % (nm, rust_int(const(ps, nm, "propset.rs"))))
     # does PropertySet::set reinterpret the i16 code page id as u16 (needed for 65001)?
-    setb = fn_body(ps, "pub fn set(&mut self, property_name: u32", "propset.rs")
-    out.append("Definition PROPSET_SET_CODEPAGE_AS_U16 : bool := %s." % ("true" if "as u16" in setb else "false"))
-    wr = fn_body(ps, "pub fn write<W: Write>(&self, mut writer: W)", "propset.rs")
-    out.append("Definition PROPSET_OFFSETS_FROM_ENCODED : bool := %s.  (* offsets taken from the bytes actually written *)"
-               % ("false" if "size_including_padding()" in wr else "true"))
+    with attempt("PROPSET_SET_CODEPAGE_AS_U16"):
+        setb = closure(ps, fn_body(ps, "pub fn set(&mut self, property_name: u32", "propset.rs", scope="PropertySet"))
+        if "as u16" in setb or "u16::from_ne_bytes" in setb:
+            out.append("Definition PROPSET_SET_CODEPAGE_AS_U16 : bool := true.")
+        elif re.search(r"as i32", setb) and "from_id" in setb:
+            out.append("Definition PROPSET_SET_CODEPAGE_AS_U16 : bool := false.")
+        else:
+            raise TranslateError("PROPSET_SET_CODEPAGE_AS_U16: conversion of the stored code page id not recognised")
+    with attempt("PROPSET_OFFSETS_FROM_ENCODED"):
+        wr = closure(ps, fn_body(ps, "pub fn write<W: Write>(&self, mut writer: W)", "propset.rs", scope="PropertySet"))
+        out.append("Definition PROPSET_OFFSETS_FROM_ENCODED : bool := %s.  (* offsets taken from the bytes actually written *)"
+                   % ("false" if "size_including_padding()" in wr else "true"))
     sm = strip_tests(src("src/internal/summary.rs"))
     for nm in ("PROPERTY_TITLE", "PROPERTY_SUBJECT", "PROPERTY_AUTHOR", "PROPERTY_COMMENTS", "PROPERTY_TEMPLATE", "PROPERTY_UUID",
                "PROPERTY_CREATION_TIME", "PROPERTY_WORD_COUNT", "PROPERTY_CREATING_APP"):
-        out.append("Definition %s : N := %d." % (nm, rust_int(const(sm, nm, "summary.rs"))))
-    m = re.search(r'const FMTID: \[u8; 16\] =\s*\*b"([^"]*)";', sm)
-    if not m:
-        raise TranslateError("anchor missing: FMTID")
-    out.append("Definition FMTID : list N := [%s]." % "; ".join(str(ord(c)) for c in unescape(m.group(1))))
-    m = re.search(r"PropertySet::new\(OperatingSystem::(\w+), (\d+), FMTID\)", sm)
-    if not m:
-        raise TranslateError("anchor missing: SummaryInfo::new property set parameters")
-    out.append("Definition SUMMARY_OS : N := %d.\nDefinition SUMMARY_OS_VERSION : N := %s." % ({"Win16": 0, "Macintosh": 1, "Win32": 2}[m.group(1)], m.group(2)))
-    # failure behaviour of the string pool and of the catalog reader (C09)
-    sp = strip_tests(src("src/internal/stringpool.rs"))
-    dec = fn_body(sp, "pub fn decref(&mut self", "stringpool.rs")
-    inc = fn_body(sp, "pub fn incref(&mut self", "stringpool.rs")
-    out.append("Definition POOL_DECREF_PANICS : bool := %s.  (* decref panics on a dangling reference / zero refcount *)"
-               % ("true" if "panic!" in strip_comments(dec) else "false"))
-    out.append("Definition POOL_INCREF_ASSERTS_EMPTY : bool := %s.  (* incref debug-asserts that an unused entry has no text *)"
-               % ("true" if "debug_assert" in strip_comments(inc) else "false"))
+        with attempt(nm):
+            out.append("Definition %s : N := %d." % (nm, rust_int(const(sm, nm, "summary.rs"))))
+    with attempt("FMTID"):
+        m = re.search(r'const FMTID: \[u8; 16\] =\s*\*b"([^"]*)";', sm)
+        if not m:
+            raise TranslateError("anchor missing: FMTID")
+        out.append("Definition FMTID : list N := [%s]." % "; ".join(str(ord(c)) for c in unescape(m.group(1))))
+    with attempt("SUMMARY_OS SUMMARY_OS_VERSION"):
+        m = re.search(r"PropertySet::new\(\s*OperatingSystem::(\w+),\s*(\d+),\s*FMTID,?\s*\)", sm)
+        if not m:
+            raise TranslateError("anchor missing: SummaryInfo::new property set parameters")
+        out.append("Definition SUMMARY_OS : N := %d.\nDefinition SUMMARY_OS_VERSION : N := %s." % ({"Win16": 0, "Macintosh": 1, "Win32": 2}[m.group(1)], m.group(2)))
+    # failure behaviour of the string pool and of the catalog reader (C09): presence of the construct is the evidence
+    with attempt("POOL_DECREF_PANICS"):
+        dec = closure(sp, fn_body(sp, "pub fn decref(&mut self", "stringpool.rs", scope="StringPool"))
+        out.append("Definition POOL_DECREF_PANICS : bool := %s.  (* decref panics on a dangling reference / zero refcount *)"
+                   % boolean(re.search(r"\bpanic!|\bunreachable!|\.unwrap\(\)|\.expect\(|\bassert!", strip_comments(dec))))
+    with attempt("POOL_INCREF_ASSERTS_EMPTY"):
+        inc = fn_body(sp, "pub fn incref(&mut self", "stringpool.rs", scope="StringPool")
+        out.append("Definition POOL_INCREF_ASSERTS_EMPTY : bool := %s.  (* incref debug-asserts that an unused entry has no text *)"
+                   % boolean("debug_assert" in strip_comments(inc)))
     pk = strip_tests(src("src/internal/package.rs"))
-    opn = fn_body(pk, "pub fn open(inner: F)", "package.rs")
-    flat = re.sub(r"\s+", "", strip_comments(opn))
-    # cells read without a preceding null test: row[i], value_refs[i].to_value(..), is_nullable
-    n_unwrap = len(re.findall(r"(?:row\[\d\]|value_refs\[\d\]\.to_value\(&string_pool\)|is_nullable)\.as_(?:str|int)\(\)\.unwrap\(\)", flat))
-    out.append("Definition OPEN_UNWRAPS_CATALOG_CELLS : bool := %s.  (* %d unguarded unwrap() on catalog cells in Package::open *)"
-               % ("true" if n_unwrap > 0 else "false", n_unwrap))
-    ffi = strip_tests(src("ffi/src/lib.rs"))
-    gt = fn_body(ffi, "fn get_table(", "ffi/src/lib.rs")
-    out.append("Definition FFI_GET_TABLE_EXPECTS : bool := %s.  (* get_table calls expect()/unwrap() on the select result *)"
-               % ("true" if re.search(r"\.(expect|unwrap)\(", strip_comments(gt)) else "false"))
+    with attempt("OPEN_UNWRAPS_CATALOG_CELLS"):
+        opn = fn_body(pk, "pub fn open(inner: F)", "package.rs")
+        fl = re.sub(r"\s+", "", strip_comments(opn))
+        # cells read without a preceding null test: row[i], value_refs[i].to_value(..), is_nullable
+        n_unwrap = len(re.findall(r"(?:row\[\d\]|value_refs\[\d\]\.to_value\(&string_pool\)|is_nullable)\.as_(?:str|int)\(\)\.unwrap\(\)", fl))
+        out.append("Definition OPEN_UNWRAPS_CATALOG_CELLS : bool := %s.  (* %d unguarded unwrap() on catalog cells in Package::open *)"
+                   % (boolean(n_unwrap > 0), n_unwrap))
+    with attempt("FFI_GET_TABLE_EXPECTS"):
+        ffi = strip_tests(src("ffi/src/lib.rs"))
+        gt = fn_body(ffi, "fn get_table(", "ffi/src/lib.rs")
+        out.append("Definition FFI_GET_TABLE_EXPECTS : bool := %s.  (* get_table calls expect()/unwrap() on the select result *)"
+                   % boolean(re.search(r"\.(expect|unwrap)\(", strip_comments(gt))))
     return "\n".join(out) + "\n"
 
 
@@ -193,119 +348,135 @@ def parse_rust_value(toks, i):
 
 def gen_language():
     text = strip_tests(src("src/internal/language.rs"))
-    m = re.search(r"const LANGUAGES\s*:[^=]*=\s*(&\[.*?\n\];)", text, re.S)
-    if not m:
-        raise TranslateError("anchor missing: const LANGUAGES in language.rs")
-    table, _ = parse_rust_value(tokenize_rust(m.group(1)), 0)
     out = ["From Coq Require Import NArith List.", "Import ListNotations.", "Open Scope N_scope.", ""]
     for name in ("LANG_MASK", "SUBLANG_SHIFT", "LANG_NEUTRAL", "SUBLANG_NEUTRAL"):
-        out.append("Definition %s : N := %d." % (name, rust_int(const(text, name, "language.rs"))))
+        with attempt(name):
+            out.append("Definition %s : N := %d." % (name, rust_int(const(text, name, "language.rs"))))
     # the sublanguage used by from_tag when the region is not in the table
-    m = re.search(r"for &\(sublang_code, sublang_tag\) in sublangs\.iter\(\) \{.*?\}\s*\}\s*return Language::new\(\s*lang_code,\s*(\w+),?\s*\);", text, re.S)
-    if not m:
-        raise TranslateError("anchor missing: from_tag fallback sublanguage")
-    fb = m.group(1)
-    out.append("Definition SUBLANG_FALLBACK : N := %d.  (* %s *)" % (rust_int(const(text, fb, "language.rs")), fb))
-    rows = []
-    for ent in table:
-        if not (isinstance(ent, tuple) and len(ent) == 3):
-            raise TranslateError("LANGUAGES entry shape: %r" % (ent,))
-        code, tag, subs = ent
-        rows.append("  (%d, %s, [%s])" % (code, coq_str(tag), "; ".join("(%d, %s)" % (c, coq_str(t)) for c, t in subs)))
-    out.append("Definition LANGUAGES : list (N * list N * list (N * list N)) := [\n%s\n]." % ";\n".join(rows))
+    with attempt("SUBLANG_FALLBACK"):
+        m = re.search(r"for &\(sublang_code, sublang_tag\) in sublangs\.iter\(\) \{.*?\}\s*\}\s*return Language::new\(\s*lang_code,\s*(\w+),?\s*\);", text, re.S)
+        if not m:
+            raise TranslateError("anchor missing: from_tag fallback sublanguage")
+        fb = m.group(1)
+        out.append("Definition SUBLANG_FALLBACK : N := %d.  (* %s *)" % (rust_int(const(text, fb, "language.rs")), fb))
+    with attempt("LANGUAGES"):
+        m = re.search(r"(?:const|static) LANGUAGES\s*:[^=]*=\s*(&\[.*?\n\];)", text, re.S)
+        if not m:
+            raise TranslateError("anchor missing: const LANGUAGES in language.rs")
+        table, _ = parse_rust_value(tokenize_rust(m.group(1)), 0)
+        rows = []
+        for ent in table:
+            if not (isinstance(ent, tuple) and len(ent) == 3):
+                raise TranslateError("LANGUAGES entry shape: %r" % (ent,))
+            code, tag, subs = ent
+            rows.append("  (%d, %s, [%s])" % (code, coq_str(tag), "; ".join("(%d, %s)" % (c, coq_str(t)) for c, t in subs)))
+        out.append("Definition LANGUAGES : list (N * list N * list (N * list N)) := [\n%s\n]." % ";\n".join(rows))
     return "\n".join(out) + "\n"
 
 
 BINOPS = ["Eq", "Ne", "Lt", "Le", "Gt", "Ge", "Add", "Sub", "Mul", "Div", "BitAnd", "BitOr", "BitXor", "Shl", "Shr"]
 
 
-def fn_body(text, sig, where):
-    """text of the function whose signature starts with sig (brace matching)"""
-    i = text.find(sig)
-    if i < 0:
-        raise TranslateError("anchor missing: %s in %s" % (sig, where))
-    j = text.index("{", i)
-    depth = 0
-    for k in range(j, len(text)):
-        if text[k] == "{":
-            depth += 1
-        elif text[k] == "}":
-            depth -= 1
-            if depth == 0:
-                return text[j:k + 1]
-    raise TranslateError("unbalanced braces after %s" % sig)
-
-
 def gen_expr():
     text = strip_tests(src("src/internal/expr.rs"))
     out = ["From Coq Require Import NArith List.", "Import ListNotations.", "Open Scope N_scope.", ""]
-    prec = fn_body(text, "fn precedence(&self)", "expr.rs")
     for op in BINOPS:
-        m = re.search(r"BinOp::%s\s*=>\s*(\d+)" % op, prec)
+        with attempt("PREC_%s" % op):
+            prec = fn_body(text, "fn precedence(&self)", "expr.rs")
+            m = re.search(r"BinOp::%s\s*=>\s*(\d+)" % op, prec)
+            if not m:
+                raise TranslateError("anchor missing: precedence of BinOp::%s" % op)
+            out.append("Definition PREC_%s : N := %s." % (op, m.group(1)))
+    fmt = ""
+    with attempt("format_with_precedence"):
+        fmt = fn_body(text, "fn format_with_precedence(", "expr.rs")
+    with attempt("PREC_AND PREC_OR PREC_UNARY_ARG"):
+        m_and = re.search(r"Ast::And\(.*?let op_prec = (\d+);", fmt, re.S)
+        m_or = re.search(r"Ast::Or\(.*?let op_prec = (\d+);", fmt, re.S)
+        m_un = re.search(r"Ast::UnOp\(.*?arg\.format_with_precedence\(formatter, (\d+)\)", fmt, re.S)
+        if not (m_and and m_or and m_un):
+            raise TranslateError("anchor missing: AND/OR/unary precedence constants in format_with_precedence")
+        out.append("Definition PREC_AND : N := %s." % m_and.group(1))
+        out.append("Definition PREC_OR : N := %s." % m_or.group(1))
+        out.append("Definition PREC_UNARY_ARG : N := %s." % m_un.group(1))
+    with attempt("PREC_NOT_PAREN_ABOVE"):
+        unarm = fmt[fmt.index("Ast::UnOp("):fmt.index("Ast::BinOp(")]
+        m = re.search(r"UnOp::BoolNot\)\s*&&\s*parent_prec\s*>\s*(\d+)", unarm)
         if not m:
-            raise TranslateError("anchor missing: precedence of BinOp::%s" % op)
-        out.append("Definition PREC_%s : N := %s." % (op, m.group(1)))
-    fmt = fn_body(text, "fn format_with_precedence(", "expr.rs")
-    m_and = re.search(r"Ast::And\(.*?let op_prec = (\d+);", fmt, re.S)
-    m_or = re.search(r"Ast::Or\(.*?let op_prec = (\d+);", fmt, re.S)
-    m_un = re.search(r"Ast::UnOp\(.*?arg\.format_with_precedence\(formatter, (\d+)\)", fmt, re.S)
-    if not (m_and and m_or and m_un):
-        raise TranslateError("anchor missing: AND/OR/unary precedence constants in format_with_precedence")
-    out.append("Definition PREC_AND : N := %s." % m_and.group(1))
-    out.append("Definition PREC_OR : N := %s." % m_or.group(1))
-    out.append("Definition PREC_UNARY_ARG : N := %s." % m_un.group(1))
-    unarm = fmt[fmt.index("Ast::UnOp("):fmt.index("Ast::BinOp(")]
-    m = re.search(r"UnOp::BoolNot\)\s*&&\s*parent_prec\s*>\s*(\d+)", unarm)
-    # when the printer never parenthesises NOT the threshold is 'infinite'
-    out.append("Definition PREC_NOT_PAREN_ABOVE : N := %s." % (m.group(1) if m else "1000000"))
+            raise TranslateError("anchor missing: parenthesis rule of NOT")
+        out.append("Definition PREC_NOT_PAREN_ABOVE : N := %s." % m.group(1))
     # every binary arm must pass op_prec to the left child and op_prec + 1 to the right one, and
     # parenthesise exactly when op_prec < parent_prec
-    n_lt = len(re.findall(r"if op_prec < parent_prec", fmt))
-    n_l = len(re.findall(r"arg1\.format_with_precedence\(formatter, op_prec\)", fmt))
-    n_r = len(re.findall(r"arg2\.format_with_precedence\(formatter, op_prec \+ 1\)", fmt))
-    out.append("Definition PRINTER_SHAPE : list N := [%d; %d; %d].  (* paren tests, left-child calls, right-child calls *)" % (n_lt, n_l, n_r))
+    with attempt("PRINTER_SHAPE"):
+        n_lt = len(re.findall(r"if op_prec < parent_prec", fmt))
+        n_l = len(re.findall(r"arg1\.format_with_precedence\(formatter, op_prec\)", fmt))
+        n_r = len(re.findall(r"arg2\.format_with_precedence\(formatter, op_prec \+ 1\)", fmt))
+        if not (n_lt and n_l and n_r):
+            raise TranslateError("anchor missing: shape of the binary arms of format_with_precedence")
+        out.append("Definition PRINTER_SHAPE : list N := [%d; %d; %d].  (* paren tests, left-child calls, right-child calls *)" % (n_lt, n_l, n_r))
     for op in BINOPS:
-        m = re.search(r'BinOp::%s\s*=>\s*formatter\.write_str\("([^"]*)"\)' % op, fmt)
-        if not m:
-            raise TranslateError("anchor missing: spelling of BinOp::%s" % op)
-        out.append("Definition TEXT_%s : list N := %s." % (op, coq_str(unescape(m.group(1)))))
+        with attempt("TEXT_%s" % op):
+            m = re.search(r'BinOp::%s\s*=>\s*formatter\.write_str\("([^"]*)"\)' % op, fmt)
+            if not m:
+                raise TranslateError("anchor missing: spelling of BinOp::%s" % op)
+            out.append("Definition TEXT_%s : list N := %s." % (op, coq_str(unescape(m.group(1)))))
     for nm, pat in (("AND", r'write_str\("( AND )"\)'), ("OR", r'write_str\("( OR )"\)'), ("NOT", r'UnOp::BoolNot\s*=>\s*formatter\.write_str\("([^"]*)"\)'),
                     ("NEG", r'UnOp::Neg\s*=>\s*formatter\.write_str\("([^"]*)"\)'), ("BITNOT", r'UnOp::BitNot\s*=>\s*formatter\.write_str\("([^"]*)"\)')):
-        m = re.search(pat, fmt)
-        if not m:
-            raise TranslateError("anchor missing: spelling of %s" % nm)
-        out.append("Definition TEXT_%s : list N := %s." % (nm, coq_str(unescape(m.group(1)))))
+        with attempt("TEXT_%s" % nm):
+            m = re.search(pat, fmt)
+            if not m:
+                raise TranslateError("anchor missing: spelling of %s" % nm)
+            out.append("Definition TEXT_%s : list N := %s." % (nm, coq_str(unescape(m.group(1)))))
     return "\n".join(out) + "\n"
 
 
 def gen_category():
     text = strip_tests(src("src/internal/category.rs"))
     out = ["From Coq Require Import NArith List.", "Import ListNotations.", "Open Scope N_scope.", ""]
-    body = fn_body(text, "pub(crate) fn all()", "category.rs")
-    idents = re.findall(r"Category::(\w+)", body)
-    if not idents:
-        raise TranslateError("anchor missing: Category::all() entries")
-    out.append("Definition CAT_ALL_IDENTS : list (list N) := [%s]." % "; ".join(coq_str(i) for i in idents))
-    body = fn_body(text, "pub(crate) fn as_str(&self)", "category.rs")
-    pairs = re.findall(r'Category::(\w+)\s*=>\s*"([^"]*)"', body)
-    out.append("Definition CAT_AS_STR : list (list N * list N) := [%s]." % "; ".join("(%s, %s)" % (coq_str(a), coq_str(unescape(b))) for a, b in pairs))
-    body = fn_body(text, "fn from_str(string: &str)", "category.rs")
-    pairs = re.findall(r'"([^"]*)"\s*=>\s*Ok\(Category::(\w+)\)', body)
-    out.append("Definition CAT_FROM_STR : list (list N * list N) := [%s]." % "; ".join("(%s, %s)" % (coq_str(unescape(a)), coq_str(b)) for a, b in pairs))
-    body = fn_body(text, "pub fn validate(&self, string: &str)", "category.rs")
-    arms = re.findall(r"^\s{12}Category::(\w+)\s*=>", body, re.M)
-    out.append("Definition CAT_VALIDATED : list (list N) := [%s]." % "; ".join(coq_str(a) for a in arms))
+    with attempt("CAT_ALL_IDENTS"):
+        body = fn_body(text, "pub(crate) fn all()", "category.rs")
+        idents = re.findall(r"Category::(\w+)", body)
+        if not idents:
+            raise TranslateError("anchor missing: Category::all() entries")
+        out.append("Definition CAT_ALL_IDENTS : list (list N) := [%s]." % "; ".join(coq_str(i) for i in idents))
+    with attempt("CAT_AS_STR"):
+        body = fn_body(text, "pub(crate) fn as_str(&self)", "category.rs")
+        pairs = re.findall(r'Category::(\w+)\s*=>\s*"([^"]*)"', body)
+        if not pairs:
+            raise TranslateError("anchor missing: Category::as_str arms")
+        out.append("Definition CAT_AS_STR : list (list N * list N) := [%s]." % "; ".join("(%s, %s)" % (coq_str(a), coq_str(unescape(b))) for a, b in pairs))
+    with attempt("CAT_FROM_STR"):
+        body = fn_body(text, "fn from_str(string: &str)", "category.rs")
+        pairs = re.findall(r'"([^"]*)"\s*=>\s*Ok\(Category::(\w+)\)', body)
+        if not pairs:
+            raise TranslateError("anchor missing: Category::from_str arms")
+        out.append("Definition CAT_FROM_STR : list (list N * list N) := [%s]." % "; ".join("(%s, %s)" % (coq_str(unescape(a)), coq_str(b)) for a, b in pairs))
+    body = ""
+    with attempt("Category::validate"):
+        body = fn_body(text, "pub fn validate(&self, string: &str)", "category.rs")
+    with attempt("CAT_VALIDATED"):
+        arms = re.findall(r"^\s{12}Category::(\w+)\s*=>", body, re.M)
+        if not arms:
+            raise TranslateError("anchor missing: arms of Category::validate")
+        out.append("Definition CAT_VALIDATED : list (list N) := [%s]." % "; ".join(coq_str(a) for a in arms))
     # numeric limits that appear in the validators
-    nums = sorted(set(int(x) for x in re.findall(r"(?<!\w)(\d+)(?!\w)", body)))
-    out.append("Definition CAT_VALIDATE_NUMBERS : list N := [%s]." % "; ".join(map(str, nums)))
-    cab = body[body.index("Category::Cabinet =>"):]
-    in_chars = len(re.findall(r"parts\[[01]\]\.chars\(\)\.count\(\)", cab))
-    in_bytes = len(re.findall(r"parts\[[01]\]\.len\(\)", cab))
-    if in_chars + in_bytes != 2:
-        raise TranslateError("anchor missing: Cabinet length tests")
-    out.append("Definition CAT_CABINET_IN_CHARS : bool := %s.  (* base/extension measured in characters (true) or bytes *)" % ("true" if in_chars == 2 else "false"))
-    types = re.findall(r"parse::<(\w+)>", body)
-    out.append("Definition CAT_PARSE_TYPES : list (list N) := [%s]." % "; ".join(coq_str(t) for t in types))
+    with attempt("CAT_VALIDATE_NUMBERS"):
+        nums = sorted(set(int(x) for x in re.findall(r"(?<!\w)(\d+)(?!\w)", body)))
+        if not nums:
+            raise TranslateError("anchor missing: literals of Category::validate")
+        out.append("Definition CAT_VALIDATE_NUMBERS : list N := [%s]." % "; ".join(map(str, nums)))
+    with attempt("CAT_CABINET_IN_CHARS"):
+        cab = body[body.index("Category::Cabinet =>"):]
+        in_chars = len(re.findall(r"parts\[[01]\]\.chars\(\)\.count\(\)", cab))
+        in_bytes = len(re.findall(r"parts\[[01]\]\.len\(\)", cab))
+        if in_chars + in_bytes != 2:
+            raise TranslateError("anchor missing: Cabinet length tests")
+        out.append("Definition CAT_CABINET_IN_CHARS : bool := %s.  (* base/extension measured in characters (true) or bytes *)" % boolean(in_chars == 2))
+    with attempt("CAT_PARSE_TYPES"):
+        types = re.findall(r"parse::<(\w+)>", body)
+        if not types:
+            raise TranslateError("anchor missing: parse::<T> calls of Category::validate")
+        out.append("Definition CAT_PARSE_TYPES : list (list N) := [%s]." % "; ".join(coq_str(t) for t in types))
     return "\n".join(out) + "\n"
 
 
@@ -314,59 +485,80 @@ def gen_column():
     out = ["From Coq Require Import NArith ZArith List.", "Import ListNotations.", "Open Scope N_scope.", ""]
     for name in ("COL_FIELD_SIZE_MASK", "COL_LOCALIZABLE_BIT", "COL_STRING_BIT", "COL_NULLABLE_BIT", "COL_PRIMARY_KEY_BIT",
                  "COL_VALID_BIT", "COL_NONBINARY_BIT"):
-        out.append("Definition %s : N := %d." % (name, rust_int(const(text, name, "column.rs"))))
-    body = fn_body(text, "fn bitfield(&self) -> i32 {\n        match *self", "column.rs")
-    m16 = re.search(r"ColumnType::Int16 => (0x[0-9a-f]+|\d+)", body)
-    m32 = re.search(r"ColumnType::Int32 => (0x[0-9a-f]+|\d+)", body)
-    if not (m16 and m32):
-        raise TranslateError("anchor missing: ColumnType::bitfield integer sizes")
-    out.append("Definition COLTYPE_INT16_BITS : N := %d." % rust_int(m16.group(1)))
-    out.append("Definition COLTYPE_INT32_BITS : N := %d." % rust_int(m32.group(1)))
-    body = fn_body(text, "fn from_bitfield(type_bits: i32)", "column.rs")
-    sizes = re.findall(r"field_size == (\d+)\s*\{[^}]*?Ok\(ColumnType::(\w+)\)", body, re.S)
-    out.append("Definition FROM_BITFIELD_INT_SIZES : list (N * N) := [%s].  (* field size, 16 or 32 *)" %
-               "; ".join("(%s, %s)" % (a, b[3:]) for a, b in sizes))
+        with attempt(name):
+            out.append("Definition %s : N := %d." % (name, rust_int(const(text, name, "column.rs"))))
+    with attempt("COLTYPE_INT16_BITS COLTYPE_INT32_BITS"):
+        body = fn_body(text, "fn bitfield(&self) -> i32 {\n        match *self", "column.rs", scope="ColumnType")
+        m16 = re.search(r"ColumnType::Int16 => (0x[0-9a-f]+|\d+)", body)
+        m32 = re.search(r"ColumnType::Int32 => (0x[0-9a-f]+|\d+)", body)
+        if not (m16 and m32):
+            raise TranslateError("anchor missing: ColumnType::bitfield integer sizes")
+        out.append("Definition COLTYPE_INT16_BITS : N := %d." % rust_int(m16.group(1)))
+        out.append("Definition COLTYPE_INT32_BITS : N := %d." % rust_int(m32.group(1)))
+    with attempt("FROM_BITFIELD_INT_SIZES"):
+        body = fn_body(text, "fn from_bitfield(type_bits: i32)", "column.rs")
+        sizes = re.findall(r"field_size == (\d+)\s*\{[^}]*?Ok\(ColumnType::(\w+)\)", body, re.S)
+        if not sizes:
+            raise TranslateError("anchor missing: integer field sizes of ColumnType::from_bitfield")
+        out.append("Definition FROM_BITFIELD_INT_SIZES : list (N * N) := [%s].  (* field size, 16 or 32 *)" %
+                   "; ".join("(%s, %s)" % (a, b[3:]) for a, b in sizes))
     return "\n".join(out) + "\n"
 
 
 def gen_codepage():
     text = strip_tests(src("src/internal/codepage.rs"))
     out = ["From Coq Require Import NArith ZArith List.", "Import ListNotations.", "Open Scope N_scope.", ""]
-    body = fn_body(text, "pub fn from_id(id: i32)", "codepage.rs")
-    pairs = re.findall(r"(\d+)\s*=>\s*Some\(CodePage::(\w+)(?:\(\))?\)", body)
-    if len(pairs) < 2:
-        raise TranslateError("anchor missing: from_id table")
-    m = re.search(r"#\[default\]\s*(\w+),", text)
-    default = m.group(1) if m else None
-    rows = []
-    for i, v in pairs:
-        if v == "default":
-            if not default:
-                raise TranslateError("anchor missing: #[default] variant of CodePage")
-            v = default
-        rows.append("(%s, %s)" % (i, coq_str(v)))
-    out.append("Definition CP_FROM_ID : list (N * list N) := [%s]." % "; ".join(rows))
-    body = fn_body(text, "pub fn id(&self)", "codepage.rs")
-    pairs = re.findall(r"CodePage::(\w+)\s*=>\s*(\d+)", body)
-    out.append("Definition CP_ID : list (list N * N) := [%s]." % "; ".join("(%s, %s)" % (coq_str(v), i) for v, i in pairs))
-    body = fn_body(text, "fn encoding(&self)", "codepage.rs")
-    rows = []
-    for m in re.finditer(r"((?:CodePage::\w+\s*\|?\s*)+)=>\s*&?encoding_rs::(\w+?)(?:_INIT)?,", body):
-        for v in re.findall(r"CodePage::(\w+)", m.group(1)):
-            rows.append("(%s, %s)" % (coq_str(v), coq_str(m.group(2))))
-    out.append("Definition CP_ENCODING : list (list N * list N) := [%s]." % "; ".join(rows))
-    dec = fn_body(text, "pub fn decode(&self, bytes: &[u8])", "codepage.rs")
-    bom = "decode_without_bom_handling" in dec
-    out.append("Definition CP_DECODE_SNIFFS_BOM : bool := %s." % ("false" if bom else "true"))
-    enc = fn_body(text, "pub fn encode(&self, string: &str)", "codepage.rs")
-    m = re.search(r"let mut buffer = \[0; (\d+)\];", enc)
-    if not m:
-        raise TranslateError("anchor missing: encode buffer size")
-    out.append("Definition CP_ENCODE_BUFFER : N := %s." % m.group(1))
-    m = re.search(r"EncoderResult::Unmappable\(_\) => \{\s*bytes\.push\(b'(.)'\);", enc)
-    if not m:
-        raise TranslateError("anchor missing: replacement byte")
-    out.append("Definition CP_REPLACEMENT : N := %d." % ord(m.group(1)))
+    with attempt("CP_FROM_ID"):
+        body = fn_body(text, "pub fn from_id(id: i32)", "codepage.rs")
+        pairs = re.findall(r"(\d+)\s*=>\s*Some\(CodePage::(\w+)(?:\(\))?\)", body)
+        if len(pairs) < 2:
+            raise TranslateError("anchor missing: from_id table")
+        m = re.search(r"#\[default\]\s*(\w+),", text)
+        default = m.group(1) if m else None
+        rows = []
+        for i, v in pairs:
+            if v == "default":
+                if not default:
+                    raise TranslateError("anchor missing: #[default] variant of CodePage")
+                v = default
+            rows.append("(%s, %s)" % (i, coq_str(v)))
+        out.append("Definition CP_FROM_ID : list (N * list N) := [%s]." % "; ".join(rows))
+    with attempt("CP_ID"):
+        body = fn_body(text, "pub fn id(&self)", "codepage.rs")
+        pairs = re.findall(r"CodePage::(\w+)\s*=>\s*(\d+)", body)
+        if len(pairs) < 2:
+            raise TranslateError("anchor missing: id table")
+        out.append("Definition CP_ID : list (list N * N) := [%s]." % "; ".join("(%s, %s)" % (coq_str(v), i) for v, i in pairs))
+    with attempt("CP_ENCODING"):
+        body = fn_body(text, "fn encoding(&self)", "codepage.rs")
+        rows = []
+        for m in re.finditer(r"((?:CodePage::\w+\s*\|?\s*)+)=>\s*&?encoding_rs::(\w+?)(?:_INIT)?,", body):
+            for v in re.findall(r"CodePage::(\w+)", m.group(1)):
+                rows.append("(%s, %s)" % (coq_str(v), coq_str(m.group(2))))
+        if len(rows) < 2:
+            raise TranslateError("anchor missing: encoding table")
+        out.append("Definition CP_ENCODING : list (list N * list N) := [%s]." % "; ".join(rows))
+    with attempt("CP_DECODE_SNIFFS_BOM"):
+        dec = closure(text, fn_body(text, "pub fn decode(&self, bytes: &[u8])", "codepage.rs"))
+        if "decode_without_bom_handling" in dec:
+            out.append("Definition CP_DECODE_SNIFFS_BOM : bool := false.")
+        elif re.search(r"\.decode\(|decode_with_bom_removal", dec):
+            out.append("Definition CP_DECODE_SNIFFS_BOM : bool := true.")
+        else:
+            raise TranslateError("CP_DECODE_SNIFFS_BOM: decoder call not recognised")
+    enc = ""
+    with attempt("CodePage::encode"):
+        enc = closure(text, fn_body(text, "pub fn encode(&self, string: &str)", "codepage.rs"))
+    with attempt("CP_ENCODE_BUFFER"):
+        m = re.search(r"let mut buffer = \[0; (\d+)\];", enc)
+        if not m:
+            raise TranslateError("anchor missing: encode buffer size")
+        out.append("Definition CP_ENCODE_BUFFER : N := %s." % m.group(1))
+    with attempt("CP_REPLACEMENT"):
+        m = re.search(r"EncoderResult::Unmappable\(_\) => \{?\s*\w+\.push\(b'(.)'\)", enc)
+        if not m:
+            raise TranslateError("anchor missing: replacement byte")
+        out.append("Definition CP_REPLACEMENT : N := %d." % ord(m.group(1)))
     return "\n".join(out) + "\n"
 
 
@@ -375,42 +567,52 @@ def gen_streamname():
     out = ["From Coq Require Import NArith List.", "Import ListNotations.", "Open Scope N_scope.", ""]
     for nm in ("DIGITAL_SIGNATURE_STREAM_NAME", "MSI_DIGITAL_SIGNATURE_EX_STREAM_NAME", "SUMMARY_INFO_STREAM_NAME",
                "DOCUMENT_SUMMARY_INFO_STREAM_NAME"):
-        m = re.search(r'pub const %s: &str =\s*"([^"]*)";' % nm, text)
+        with attempt(nm):
+            m = re.search(r'pub const %s: &str =\s*"([^"]*)";' % nm, text)
+            if not m:
+                raise TranslateError("anchor missing: %s" % nm)
+            out.append("Definition %s : list N := %s." % (nm, coq_str(unescape(m.group(1)))))
+    with attempt("TABLE_PREFIX"):
+        m = re.search(r"const TABLE_PREFIX: char = '([^']*)';", text)
         if not m:
-            raise TranslateError("anchor missing: %s" % nm)
-        out.append("Definition %s : list N := %s." % (nm, coq_str(unescape(m.group(1)))))
-    m = re.search(r"const TABLE_PREFIX: char = '([^']*)';", text)
-    if not m:
-        raise TranslateError("anchor missing: TABLE_PREFIX")
-    out.append("Definition TABLE_PREFIX : N := %d." % ord(unescape(m.group(1))))
-    dec = fn_body(text, "pub fn decode(name: &str)", "streamname.rs")
-    rs = re.findall(r"\((0x[0-9a-fA-F]+)\.\.(0x[0-9a-fA-F]+)\)\.contains", dec)
-    if len(rs) != 2:
-        raise TranslateError("anchor missing: decode ranges")
-    out.append("Definition SN_PAIR_LO : N := %d.\nDefinition SN_PAIR_HI : N := %d." % (int(rs[0][0], 16), int(rs[0][1], 16)))
-    out.append("Definition SN_SINGLE_LO : N := %d.\nDefinition SN_SINGLE_HI : N := %d." % (int(rs[1][0], 16), int(rs[1][1], 16)))
-    enc = fn_body(text, "pub fn encode(name: &str, is_table: bool)", "streamname.rs")
-    m1 = re.search(r"(0x[0-9a-fA-F]+) \+ \(value2 << (\d+)\) \+ value1", enc)
-    m2 = re.search(r"let encoded = (0x[0-9a-fA-F]+) \+ value1;", enc)
-    if not (m1 and m2):
-        raise TranslateError("anchor missing: encode arithmetic")
-    out.append("Definition SN_ENC_PAIR_BASE : N := %d.\nDefinition SN_ENC_SHIFT : N := %s.\nDefinition SN_ENC_SINGLE_BASE : N := %d."
-               % (int(m1.group(1), 16), m1.group(2), int(m2.group(1), 16)))
-    val = fn_body(text, "pub fn is_valid(name: &str, is_table: bool)", "streamname.rs")
-    m = re.search(r"encode_utf16\(\)\.count\(\) <= (\d+)", val)
-    if not m:
-        raise TranslateError("anchor missing: is_valid length limit")
-    out.append("Definition SN_MAX_UNITS : N := %s." % m.group(1))
+            raise TranslateError("anchor missing: TABLE_PREFIX")
+        out.append("Definition TABLE_PREFIX : N := %d." % ord(unescape(m.group(1))))
+    with attempt("SN_PAIR_LO SN_PAIR_HI SN_SINGLE_LO SN_SINGLE_HI"):
+        dec = fn_body(text, "pub fn decode(name: &str)", "streamname.rs")
+        rs = re.findall(r"\((0x[0-9a-fA-F]+)\.\.(0x[0-9a-fA-F]+)\)\.contains", dec)
+        if len(rs) != 2:
+            raise TranslateError("anchor missing: decode ranges")
+        out.append("Definition SN_PAIR_LO : N := %d.\nDefinition SN_PAIR_HI : N := %d." % (int(rs[0][0], 16), int(rs[0][1], 16)))
+        out.append("Definition SN_SINGLE_LO : N := %d.\nDefinition SN_SINGLE_HI : N := %d." % (int(rs[1][0], 16), int(rs[1][1], 16)))
+    with attempt("SN_ENC_PAIR_BASE SN_ENC_SHIFT SN_ENC_SINGLE_BASE"):
+        enc = fn_body(text, "pub fn encode(name: &str, is_table: bool)", "streamname.rs")
+        m1 = re.search(r"(0x[0-9a-fA-F]+) \+ \(value2 << (\d+)\) \+ value1", enc)
+        m2 = re.search(r"let encoded = (0x[0-9a-fA-F]+) \+ value1;", enc)
+        if not (m1 and m2):
+            raise TranslateError("anchor missing: encode arithmetic")
+        out.append("Definition SN_ENC_PAIR_BASE : N := %d.\nDefinition SN_ENC_SHIFT : N := %s.\nDefinition SN_ENC_SINGLE_BASE : N := %d."
+                   % (int(m1.group(1), 16), m1.group(2), int(m2.group(1), 16)))
+    val = ""
+    with attempt("streamname::is_valid"):
+        val = fn_body(text, "pub fn is_valid(name: &str, is_table: bool)", "streamname.rs")
+    with attempt("SN_MAX_UNITS"):
+        m = re.search(r"encode_utf16\(\)\.count\(\) <= (\d+)", val)
+        if not m:
+            raise TranslateError("anchor missing: is_valid length limit")
+        out.append("Definition SN_MAX_UNITS : N := %s." % m.group(1))
     # characters is_valid refuses outright (absent in the original source)
-    ranges, chars = [], []
-    if "is_reserved_char" in val and "fn is_reserved_char" in text:
-        body = fn_body(text, "fn is_reserved_char(ch: char)", "streamname.rs")
-        ranges = [(int(a, 16), int(b, 16)) for a, b in re.findall(r"\((0x[0-9a-fA-F]+)\.\.=(0x[0-9a-fA-F]+)\)\.contains", body)]
-        m = re.search(r"matches!\(ch,([^)]*)\)", body)
-        if m:
-            chars = [ord(unescape(c)) for c in re.findall(r"'((?:\\.|[^'\\])+)'", m.group(1))]
-    out.append("Definition SN_RESERVED_RANGES : list (N * N) := [%s]." % "; ".join("(%d, %d)" % r for r in ranges))
-    out.append("Definition SN_RESERVED_CHARS : list N := [%s]." % "; ".join(map(str, chars)))
+    with attempt("SN_RESERVED_RANGES SN_RESERVED_CHARS"):
+        ranges, chars = [], []
+        if "is_reserved_char" in val and "fn is_reserved_char" in text:
+            body = fn_body(text, "fn is_reserved_char(ch: char)", "streamname.rs")
+            ranges = [(int(a, 16), int(b, 16)) for a, b in re.findall(r"\((0x[0-9a-fA-F]+)\.\.=(0x[0-9a-fA-F]+)\)\.contains", body)]
+            m = re.search(r"matches!\(ch,([^)]*)\)", body)
+            if m:
+                chars = [ord(unescape(c)) for c in re.findall(r"'((?:\\.|[^'\\])+)'", m.group(1))]
+        if not val or not (ranges or chars):
+            raise TranslateError("anchor missing: reserved characters of is_valid")
+        out.append("Definition SN_RESERVED_RANGES : list (N * N) := [%s]." % "; ".join("(%d, %d)" % r for r in ranges))
+        out.append("Definition SN_RESERVED_CHARS : list N := [%s]." % "; ".join(map(str, chars)))
     return "\n".join(out) + "\n"
 
 
@@ -482,17 +684,20 @@ def gen_catalog():
            "Definition schema_col := (list N * N * N * bool * bool * option (Z * Z) * option (list N) * schema_enum)%type.", ""]
     for nm in ("INSTALLER_PACKAGE_CLSID", "PATCH_PACKAGE_CLSID", "TRANSFORM_PACKAGE_CLSID", "COLUMNS_TABLE_NAME", "TABLES_TABLE_NAME",
                "VALIDATION_TABLE_NAME", "STRING_DATA_TABLE_NAME", "STRING_POOL_TABLE_NAME"):
-        m = re.search(r'const %s: &str =\s*"([^"]*)";' % nm, text)
-        if not m:
-            raise TranslateError("anchor missing: %s" % nm)
-        out.append("Definition %s : list N := %s." % (nm, coq_str(m.group(1))))
-    out.append("Definition MAX_NUM_TABLE_COLUMNS : N := %d." % rust_int(const(text, "MAX_NUM_TABLE_COLUMNS", "package.rs")))
-    body = fn_body(text, "fn default_title(&self)", "package.rs")
+        with attempt(nm):
+            m = re.search(r'const %s: &str =\s*"([^"]*)";' % nm, text)
+            if not m:
+                raise TranslateError("anchor missing: %s" % nm)
+            out.append("Definition %s : list N := %s." % (nm, coq_str(m.group(1))))
+    with attempt("MAX_NUM_TABLE_COLUMNS"):
+        out.append("Definition MAX_NUM_TABLE_COLUMNS : N := %d." % rust_int(const(text, "MAX_NUM_TABLE_COLUMNS", "package.rs")))
     for v in ("Installer", "Patch", "Transform"):
-        m = re.search(r'PackageType::%s => "([^"]*)"' % v, body)
-        if not m:
-            raise TranslateError("anchor missing: default title of %s" % v)
-        out.append("Definition DEFAULT_TITLE_%s : list N := %s." % (v, coq_str(m.group(1))))
+        with attempt("DEFAULT_TITLE_%s" % v):
+            body = fn_body(text, "fn default_title(&self)", "package.rs")
+            m = re.search(r'PackageType::%s => "([^"]*)"' % v, body)
+            if not m:
+                raise TranslateError("anchor missing: default title of %s" % v)
+            out.append("Definition DEFAULT_TITLE_%s : list N := %s." % (v, coq_str(m.group(1))))
 
     def vec_items(fn_sig):
         body = fn_body(text, fn_sig, "package.rs")
@@ -524,114 +729,194 @@ def gen_catalog():
         return body, items
 
     env = {}
-    vbody, vitems = vec_items("fn make_validation_columns()")
-    for name, val in re.findall(r"let (\w+) = (-?0x[0-9a-fA-F_]+|-?\d[\d_]*);", vbody):
-        env[name] = rust_int(val)
-    _, titems = vec_items("fn make_tables_table(")
-    _, citems = vec_items("fn make_columns_table(")
-    out.append("Definition TABLES_SCHEMA : list schema_col := %s." % coq_schema([parse_builder_chain(x, "make_tables_table") for x in titems], env))
-    out.append("Definition COLUMNS_SCHEMA : list schema_col := %s." % coq_schema([parse_builder_chain(x, "make_columns_table") for x in citems], env))
-    out.append("Definition VALIDATION_SCHEMA : list schema_col := %s." % coq_schema([parse_builder_chain(x, "make_validation_columns") for x in vitems], env))
-    body = fn_body(text, "fn is_reserved_table_name(", "package.rs")
-    names = re.findall(r"table_name == (\w+)", body)
-    out.append("Definition RESERVED_TABLE_NAMES : list (list N) := [%s]." % "; ".join(names))
+    with attempt("TABLES_SCHEMA"):
+        _, titems = vec_items("fn make_tables_table(")
+        out.append("Definition TABLES_SCHEMA : list schema_col := %s." % coq_schema([parse_builder_chain(x, "make_tables_table") for x in titems], env))
+    with attempt("COLUMNS_SCHEMA"):
+        _, citems = vec_items("fn make_columns_table(")
+        out.append("Definition COLUMNS_SCHEMA : list schema_col := %s." % coq_schema([parse_builder_chain(x, "make_columns_table") for x in citems], env))
+    with attempt("VALIDATION_SCHEMA"):
+        vbody, vitems = vec_items("fn make_validation_columns()")
+        for name, val in re.findall(r"let (\w+) = (-?0x[0-9a-fA-F_]+|-?\d[\d_]*);", vbody):
+            env[name] = rust_int(val)
+        out.append("Definition VALIDATION_SCHEMA : list schema_col := %s." % coq_schema([parse_builder_chain(x, "make_validation_columns") for x in vitems], env))
+    with attempt("RESERVED_TABLE_NAMES"):
+        body = fn_body(text, "fn is_reserved_table_name(", "package.rs")
+        names = re.findall(r"table_name == (\w+)", body)
+        if not names:
+            raise TranslateError("anchor missing: names tested by is_reserved_table_name")
+        out.append("Definition RESERVED_TABLE_NAMES : list (list N) := [%s]." % "; ".join(names))
+    body = ""
+    with attempt("create_table_with_name"):
+        body = closure(text, fn_body(text, "fn create_table_with_name(", "package.rs"), depth=1)
     # extra reserved names refused by create_table (absent in the original source)
-    body = fn_body(text, "fn create_table_with_name(", "package.rs")
-    extra = re.findall(r"table_name == (STRING_\w+_TABLE_NAME)", body)
-    out.append("Definition CREATE_TABLE_EXTRA_RESERVED : list (list N) := [%s]." % "; ".join(extra))
-    m = re.search(r"if max_len > (\d+)", body)
-    out.append("Definition CREATE_TABLE_MAX_STRING_WIDTH : option N := %s." % ("Some %s" % m.group(1) if m else "None"))
-    out.append("Definition CREATE_TABLE_CHECKS_ENUM_VALUES : bool := %s." % ("true" if re.search(r"v\.is_empty\(\) \|\| v\.contains\(';'\)", body) else "false"))
+    with attempt("CREATE_TABLE_EXTRA_RESERVED"):
+        extra = re.findall(r"table_name == (STRING_\w+_TABLE_NAME)", body)
+        if not extra:
+            raise TranslateError("anchor missing: string pool names refused by create_table")
+        out.append("Definition CREATE_TABLE_EXTRA_RESERVED : list (list N) := [%s]." % "; ".join(extra))
+    with attempt("CREATE_TABLE_MAX_STRING_WIDTH"):
+        m = re.search(r"if max_len > (\d+)", body)
+        if not m:
+            raise TranslateError("anchor missing: string width limit of create_table")
+        out.append("Definition CREATE_TABLE_MAX_STRING_WIDTH : option N := Some %s." % m.group(1))
+    with attempt("CREATE_TABLE_CHECKS_ENUM_VALUES"):
+        if not re.search(r"v\.is_empty\(\) \|\| v\.contains\(';'\)", body):
+            raise TranslateError("anchor missing: enumeration value check of create_table")
+        out.append("Definition CREATE_TABLE_CHECKS_ENUM_VALUES : bool := true.")
     # in a package without _Validation: are range / foreign key / category / enumeration refused (cells 3..8 of the row)?
-    flat = re.sub(r"\s+", "", body)
-    refuses = bool(re.search(r"table_name!=VALIDATION_TABLE_NAME&&!self\.tables\.contains_key\(VALIDATION_TABLE_NAME\)&&validation_rows\.iter\(\)\.any\(\|row\|row\[3\.\.9\]\.iter\(\)\.any\(\|value\|!value\.is_null\(\)\)\)", flat))
-    out.append("Definition CREATE_TABLE_REFUSES_UNRECORDABLE : bool := %s.  (* without _Validation *)" % ("true" if refuses else "false"))
+    with attempt("CREATE_TABLE_REFUSES_UNRECORDABLE"):
+        fl = re.sub(r"\s+", "", body)
+        if not re.search(r"table_name!=VALIDATION_TABLE_NAME&&!self\.tables\.contains_key\(VALIDATION_TABLE_NAME\)&&validation_rows\.iter\(\)\.any\(\|row\|row\[3\.\.9\]\.iter\(\)\.any\(\|value\|!value\.is_null\(\)\)\)", fl):
+            raise TranslateError("anchor missing: refusal of unrecordable attributes without _Validation")
+        out.append("Definition CREATE_TABLE_REFUSES_UNRECORDABLE : bool := true.  (* without _Validation *)")
     return "\n".join(out) + "\n"
 
 
+# --------------------------------------------------------------------------- #
+# I/O discipline of the write paths (C15).  Three-valued: `true` when the discipline is recognised, `false` when the
+# text positively shows a discarded result or a missing flush, otherwise the datum is left out (arbitrated by behaviour).
+def flush_flag(name, text, sig, where, what, scope=None):
+    top = fn_body(text, sig, where, scope=scope)
+    b = flat(closure(text, top))
+    if not re.search(r"\.flush\(\)", b):
+        return "Definition %s : bool := false.  (* %s: no flush *)" % (name, what)
+    if any(re.search(r"\.flush\(\)\s*" + d.replace("let _ =", "XX"), b) for d in DISCARDS) or re.search(r"let _ = [^;]*\.flush\(\)", b):
+        return "Definition %s : bool := false.  (* %s: flush result discarded *)" % (name, what)
+    t = flat(top).strip()
+    if re.search(r"\.flush\(\)\s*\?\s*;\s*Ok\(\(\)\)\s*}\s*$", t) or re.search(r"\.flush\(\)\s*}\s*$", t):
+        return "Definition %s : bool := true.  (* %s *)" % (name, what)
+    raise TranslateError("%s: position of the flush in %s not recognised" % (name, what))
 
 
-
-def fn_body(text, signature, where):
-    """the body of the function whose signature starts with `signature` (brace matching)"""
-    i = text.find(signature)
-    if i < 0:
-        raise TranslateError("anchor missing: %s in %s" % (signature, where))
-    j = text.index("{", i)
-    depth, k = 0, j
-    while k < len(text):
-        if text[k] == "{":
-            depth += 1
-        elif text[k] == "}":
-            depth -= 1
-            if depth == 0:
-                return text[j:k + 1]
-        k += 1
-    raise TranslateError("unbalanced braces after %s in %s" % (signature, where))
-
-
-def strip_comments(body):
-    return re.sub(r"//[^\n]*", "", body)
-
-
-def ends_with_propagated_flush(body):
-    """does the function end with `writer.flush()?; Ok(())` (the flush result is propagated before success is reported)"""
-    b = re.sub(r"\s+", " ", strip_comments(body)).strip()
-    return bool(re.search(r"\.flush\(\)\s*\?\s*;\s*Ok\(\(\)\)\s*}\s*$", b))
-
-
-def all_calls_propagated(body, calls):
-    """every listed call appears followed by `?` (its error is returned), none is discarded with `let _ =` / `.ok()`"""
-    b = re.sub(r"\s+", " ", strip_comments(body))
+def propagation_flag(name, body, calls, what):
+    b = flat(body)
+    bad = [d for d in DISCARDS if re.search(d, b)]
+    if bad:
+        return "Definition %s : bool := false.  (* %s: result discarded (%s) *)" % (name, what, bad[0])
     for c in calls:
         found = re.findall(r"%s\([^;]*?\)\s*(\?)?\s*[;)]" % re.escape(c), b)
-        if not found or any(q != "?" for q in found):
-            return False
-    return "let _ =" not in b and ".ok();" not in b
+        if not found:
+            raise TranslateError("%s: call %s not found in %s" % (name, c, what))
+        if any(q != "?" for q in found):
+            raise TranslateError("%s: a call of %s in %s is not followed by `?`" % (name, c, what))
+    return "Definition %s : bool := true.  (* %s *)" % (name, what)
 
 
 def gen_io():
-    """I/O discipline of the write paths (C15)"""
     out = ["From Coq Require Import Bool.", ""]
     tb = strip_tests(src("src/internal/table.rs"))
     sp = strip_tests(src("src/internal/stringpool.rs"))
     ps = strip_tests(src("src/internal/propset.rs"))
     pk = strip_tests(src("src/internal/package.rs"))
     qy = strip_tests(src("src/internal/query.rs"))
-    flags = [
-        ("IO_WRITE_ROWS_FLUSHES", ends_with_propagated_flush(fn_body(tb, "fn write_rows<", "table.rs")), "Table::write_rows"),
-        ("IO_WRITE_POOL_FLUSHES", ends_with_propagated_flush(fn_body(sp, "pub fn write_pool<", "stringpool.rs")), "StringPool::write_pool"),
-        ("IO_WRITE_DATA_FLUSHES", ends_with_propagated_flush(fn_body(sp, "pub fn write_data<", "stringpool.rs")), "StringPool::write_data"),
-        ("IO_PROPSET_WRITE_FLUSHES", ends_with_propagated_flush(fn_body(ps, "pub fn write<W: Write>(&self, mut writer: W)", "propset.rs")), "PropertySet::write"),
-    ]
-    i = pk.find("Finish<F> for FinishImpl")
-    if i < 0:
-        raise TranslateError("anchor missing: impl Finish<F> for FinishImpl in package.rs")
-    fin = fn_body(pk[i:], "fn finish(&self, package: &mut Package<F>)", "package.rs")
-    flags.append(("IO_FINISH_PROPAGATES", all_calls_propagated(fin, ["summary_info.write", "write_pool", "write_data", "create_stream"]), "FinishImpl::finish uses ? on every write"))
-    fl = fn_body(pk, "pub fn flush(&mut self)", "package.rs")
-    b = re.sub(r"\s+", " ", strip_comments(fl))
-    flags.append(("IO_FLUSH_PROPAGATES", bool(re.search(r"finisher\.finish\(self\)\?;", b)) and bool(re.search(r"self\.comp_mut\(\)\.flush\(\)\s*}", b)), "Package::flush returns the finisher's and the container's errors"))
-    n_exec = len(re.findall(r"\.write_rows\(", qy))
-    n_prop = len(re.findall(r"\.write_rows\([^;]*\)\?;", re.sub(r"\s+", " ", strip_comments(qy))))
-    flags.append(("IO_EXEC_PROPAGATES", n_exec > 0 and n_exec == n_prop, "Insert/Update/Delete::exec use ? on write_rows (%d of %d)" % (n_prop, n_exec)))
-    for name, val, what in flags:
-        out.append("Definition %s : bool := %s.  (* %s *)" % (name, "true" if val else "false", what))
+    with attempt("IO_WRITE_ROWS_FLUSHES"):
+        out.append(flush_flag("IO_WRITE_ROWS_FLUSHES", tb, "fn write_rows<", "table.rs", "Table::write_rows"))
+    with attempt("IO_WRITE_POOL_FLUSHES"):
+        out.append(flush_flag("IO_WRITE_POOL_FLUSHES", sp, "pub fn write_pool<", "stringpool.rs", "StringPool::write_pool"))
+    with attempt("IO_WRITE_DATA_FLUSHES"):
+        out.append(flush_flag("IO_WRITE_DATA_FLUSHES", sp, "pub fn write_data<", "stringpool.rs", "StringPool::write_data"))
+    with attempt("IO_PROPSET_WRITE_FLUSHES"):
+        out.append(flush_flag("IO_PROPSET_WRITE_FLUSHES", ps, "pub fn write<W: Write>(&self, mut writer: W)", "propset.rs", "PropertySet::write", scope="PropertySet"))
+    with attempt("IO_FINISH_PROPAGATES"):
+        fin = closure(pk, fn_body(pk, "fn finish(&self, package: &mut Package<F>)", "package.rs", scope="FinishImpl"))
+        out.append(propagation_flag("IO_FINISH_PROPAGATES", fin, ["summary_info.write", "write_pool", "write_data", "create_stream"],
+                                    "FinishImpl::finish uses ? on every write"))
+    with attempt("IO_FLUSH_PROPAGATES"):
+        fl = fn_body(pk, "pub fn flush(&mut self)", "package.rs")
+        b = flat(closure(pk, fl))
+        bad = [d for d in DISCARDS if re.search(d, b)]
+        if bad:
+            out.append("Definition IO_FLUSH_PROPAGATES : bool := false.  (* Package::flush: result discarded (%s) *)" % bad[0])
+        elif re.search(r"finisher\.finish\(self\)\?;", flat(fl)) and re.search(r"self\.comp_mut\(\)\.flush\(\)\s*}", flat(fl)):
+            out.append("Definition IO_FLUSH_PROPAGATES : bool := true.  (* Package::flush returns the finisher's and the container's errors *)")
+        else:
+            raise TranslateError("IO_FLUSH_PROPAGATES: shape of Package::flush not recognised")
+    with attempt("IO_EXEC_PROPAGATES"):
+        q = flat(qy)
+        n_exec = len(re.findall(r"\.write_rows\(", q))
+        n_prop = len(re.findall(r"\.write_rows\([^;]*\)\?;", q))
+        if n_exec == 0:
+            raise TranslateError("IO_EXEC_PROPAGATES: no write_rows call in query.rs")
+        if re.search(r"let _ = [^;]*\.write_rows\(|\.write_rows\([^;]*\)\s*(?:\.ok\(\)|\.unwrap_or)|\.write_rows\([^;?]*\);", q):
+            out.append("Definition IO_EXEC_PROPAGATES : bool := false.  (* a write_rows result is discarded *)")
+        elif n_exec == n_prop:
+            out.append("Definition IO_EXEC_PROPAGATES : bool := true.  (* Insert/Update/Delete::exec use ? on write_rows (%d of %d) *)" % (n_prop, n_exec))
+        else:
+            raise TranslateError("IO_EXEC_PROPAGATES: %d of %d write_rows calls recognised as propagated" % (n_prop, n_exec))
     return "\n".join(out) + "\n"
 
 
-GENERATORS = {"GenCatalog.v": gen_catalog, "GenStreamName.v": gen_streamname, "GenCodePage.v": gen_codepage, "GenColumn.v": gen_column, "GenCategory.v": gen_category, "GenConsts.v": gen_consts, "GenLanguage.v": gen_language, "GenExpr.v": gen_expr, "GenIo.v": gen_io}
+def gen_singlebyte():
+    """the single-byte index tables of the encoding_rs release that Cargo.lock pins (src/data.rs in the cargo registry):
+    128 code points per encoding for the bytes 0x80..0xFF, 0 = unmapped"""
+    lock = src("Cargo.lock")
+    m = re.search(r'name = "encoding_rs"\s*\nversion = "([^"]+)"', lock)
+    if not m:
+        raise TranslateError("anchor missing: encoding_rs in Cargo.lock")
+    ver = m.group(1)
+    import glob
+    home = os.environ.get("CARGO_HOME") or os.path.join(os.path.expanduser("~"), ".cargo")
+    paths = sorted(glob.glob(os.path.join(home, "registry", "src", "*", "encoding_rs-%s" % ver, "src", "data.rs")))
+    if not paths:
+        raise TranslateError("anchor missing: encoding_rs-%s/src/data.rs in the cargo registry" % ver)
+    text = open(paths[0], encoding="utf-8").read()
+    i = text.find("pub static SINGLE_BYTE_DATA")
+    if i < 0:
+        raise TranslateError("anchor missing: SINGLE_BYTE_DATA in encoding_rs data.rs")
+    j = text.index("{", text.index("=", i))
+    block = text[j:_match_braces(text, j) + 1]
+    rows = []
+    for name, body in re.findall(r"(\w+): \[(.*?)\],\n", block, re.S):
+        nums = [rust_int(x) for x in re.findall(r"0x[0-9A-Fa-f]+|\b\d+\b", body)]
+        if len(nums) != 128:
+            raise TranslateError("single-byte table %s has %d entries" % (name, len(nums)))
+        rows.append("  (%s, [%s])" % (coq_str(name.upper()), "; ".join(map(str, nums))))
+    if len(rows) < 20:
+        raise TranslateError("only %d single-byte tables found" % len(rows))
+    out = ["From Coq Require Import NArith List.", "Import ListNotations.", "Open Scope N_scope.", "",
+           "(* encoding_rs %s *)" % ver,
+           "Definition SB_TABLES : list (list N * list N) := [\n%s\n]." % ";\n".join(rows)]
+    return "\n".join(out) + "\n"
+
+
+GENERATORS = {"GenSingleByte.v": gen_singlebyte, "GenCatalog.v": gen_catalog, "GenStreamName.v": gen_streamname, "GenCodePage.v": gen_codepage, "GenColumn.v": gen_column, "GenCategory.v": gen_category, "GenConsts.v": gen_consts, "GenLanguage.v": gen_language, "GenExpr.v": gen_expr, "GenIo.v": gen_io}
+
+
+def candidates():
+    """-> ({file: text or None}, {file: [reasons of the extractions that failed]})"""
+    texts, errors = {}, {}
+    header = "(* GENERATED by tools/translate.py from %s -- do not edit *)\n" % REPO
+    for name, fn in GENERATORS.items():
+        del ERRORS[:]
+        try:
+            texts[name] = header + fn()
+        except (TranslateError, OSError, ValueError, IndexError, KeyError, AttributeError) as e:
+            texts[name] = None
+            ERRORS.append("%s" % e)
+        errors[name] = list(ERRORS)
+    return texts, errors
 
 
 def main():
+    import arbitrate
+    cands, errs = candidates()
+    final, notes, failures = arbitrate.decide(cands, errs)
     changed = []
-    for name, fn in GENERATORS.items():
-        if write_if_changed(name, fn()):
+    for name, text in final.items():
+        body = text.split("\n", 1)[1] if text.startswith("(* GENERATED") else text
+        if write_if_changed(name, body):
             changed.append(name)
-    print("translate: ok (%d files, changed: %s)" % (len(GENERATORS), ",".join(changed) or "none"))
+    for n in notes:
+        print("translate: note: %s" % n)
+    if failures:
+        print("translate: FAILED: %s" % " | ".join(failures))
+        sys.exit(3)
+    print("translate: ok (%d files, changed: %s)" % (len(final), ",".join(changed) or "none"))
 
 
 if __name__ == "__main__":
+    sys.path.insert(0, os.path.dirname(os.path.abspath(__file__)))
     try:
         main()
     except TranslateError as e:
